@@ -65,6 +65,11 @@ class Builder:
             for seg in e.path:
                 r = getattr(r, seg)
             return r
+        if isinstance(e, Orphan):
+            if e.kind == 0:
+                return h.Signal(name="orph", width=e.w)
+            other = h.Module(name="Other")
+            return other.add(h.Signal(name="stolen", width=e.w))
         if isinstance(e, Anon):
             return h.AnonymousBundle(**{k: self.expr(m, v, ncs) for k, v in e.members})
         raise TypeError(e)
@@ -143,7 +148,9 @@ class Builder:
         elif self.style == "class":
             m = self.class_body(md)
         else:
-            m = self.fill(h.Module(name=md.name), md)
+            m = h.Module(name=md.name) if md.name else h.Module()
+            self.mcache[id(md)] = m  # registered before filling, so that a cyclic DSL builds a cyclic design
+            self.fill(m, md)
         self.mcache[id(md)] = m
         return m
 
